@@ -81,6 +81,25 @@ Theorem C37_sync_common_next : forall n h r1 r2 s1 s2 p1 p2, wf n h = true -> co
 Proof. exact sync_common_next. Qed.
 Print Assumptions C37_sync_common_next.
 
+(* the synchronisation is one critical section of taskpool_array_lock: the
+   value written back is the maximum over the counters as they are at that
+   moment, so no counter ever decreases (a reservation by another thread of
+   the process is ordered before or after the whole synchronisation, and
+   C37_reserved_ids_distinct covers both orders) *)
+Theorem C37_sync_never_lowers_a_counter : forall ss r s s', nth_error ss r = Some s -> dead s = false ->
+  nth_error (fst (sys_step ss SyncAll)) r = Some s' -> pos s <= pos s' /\ pos s' = max_pos ss.
+Proof. exact sync_never_lowers_a_counter. Qed.
+Print Assumptions C37_sync_never_lowers_a_counter.
+
+(* ... and it has to be: a write-back computed from a counter read before a
+   reservation (Sync m with m below the current counter) repeats an identifier *)
+Theorem C37_stale_write_back_repeats_an_identifier :
+  let s1 := fst (step init (Reserve 1)) in
+  let s2 := fst (step s1 (Sync 0)) in
+  snd (step init (Reserve 1)) = RId 1 /\ snd (step s2 (Reserve 2)) = RId 1.
+Proof. exact stale_write_back_repeats_an_identifier. Qed.
+Print Assumptions C37_stale_write_back_repeats_an_identifier.
+
 (* outside the property: 0 is not an identifier (the first one is 1), and the
    code does not tolerate its lookup: NULL array before the first
    reservation, a slot nobody initialised afterwards *)
